@@ -525,7 +525,9 @@ def oracle_channelwise(ctx, N, nmax):
                     bk, _ = m.match_criterion_bin(xk, m.W[c], m.params, cache=ck, op=op)
                     terms.append(tk * gam_[k_])
                     bins.append(bool(bk))
-            if float(T) != float(sum(terms)) and not (T != T and sum(terms) != sum(terms)):
+            st_ = float(sum(terms))
+            # the order in which the weighted terms are added is not part of the statement: compare up to rounding
+            if not (abs(float(T) - st_) <= 1e-12 * max(1.0, abs(st_))) and not (T != T and st_ != st_):
                 ctx.issue("violation", "FusionART.category_choice:!=gamma-weighted-sum",
                           f"category_choice {T!r} vs sum of gamma*module choice {sum(terms)!r}", dict(rep, x=x, c=c))
             if bool(mb) != all(bins):
@@ -580,7 +582,12 @@ def oracle_single(ctx, N, nmax):
         mode = r.choice(MODES)
         eps = r.choice([0.0, 2.0 ** -20, 2.0 ** -10, 0.125])
         vt = gen.veto_table(r, n + 2, n + 3) if r.random() < 0.4 else None
+        # gamma_values may be given as Python ints or an integer array (a one-hot weighting passes validation)
+        gam1 = r.choice([[1.0], [1.0], [1], np.array([1])])
         spec = fusion_spec([sp], [X.shape[1]], [1.0])
+        spec["gamma_values"] = gam1
+        if not isinstance(gam1[0], float):
+            cov.hit("integer-typed-gamma")
         rep = {"spec": spec, "class": c, "mode": mode, "eps": eps, "veto": vt, "X": X}
         sig07 = f07_sig([c])
         # identical batching for both
